@@ -65,6 +65,13 @@ def lib():
                 return self.cls
             return list(self.cls)
 
+        # a float-valued item (scores, weights, soft targets): bulk utilities must not change its values
+        def getitem_score(self, idx, ctx=None):
+            return self.cls[idx] + 0.25
+
+        def getall_score(self):
+            return [c + 0.25 for c in self.cls]
+
         def getshape_class(self):
             return (3,)
 
@@ -412,6 +419,15 @@ def check_spec(spec, bulk="list"):
             pass
         except Exception as e:
             bad(f"util.{fn}", f"exception:{type(e).__name__}", repr(e))
+        try:
+            got = getattr(gat, fn)(obj, "score")
+            got = [float(g) for g in (got.tolist() if hasattr(got, "tolist") else got)]
+            if got != [e + 0.25 for e in exp]:
+                bad(f"util.{fn}", "float_item_differs_from_per_sample", f"expected {[e + 0.25 for e in exp]}, got {got}")
+        except OK_EXC:
+            pass
+        except Exception as e:
+            bad(f"util.{fn}", f"float_item_exception:{type(e).__name__}", repr(e))
     # introspection through linear chains
     if chain is not None:
         try:
